@@ -2,6 +2,7 @@ import Mathlib.Tactic.Ring
 import Mathlib.Data.Nat.Sqrt
 import FeatModel.Model.Solver.RatVec
 import FeatModel.Lemmas.C07Krylov
+import FeatModel.Lemmas.C07Krylov2
 /-! Helper lemmas for C07: the instance the driver executes (`Vector Rat n`, dense matrix, unit-filter mask, arbitrary
     preconditioner) satisfies the linear-algebra laws `Lawful`; the fast square root equals `Nat.sqrt`. -/
 namespace FeatModel.Solver
@@ -68,6 +69,33 @@ theorem ratSys_lawful {n : Nat} (A : RMat n) (mask : Vector Bool n) (pre : Optio
     rw [getElem_maskF, getElem_vaxpy, getElem_matVec, vdot_zero, getElem_maskF]
     split <;> ring
 
+theorem getElem_vscale {n : Nat} (x : RVec n) (a : Rat) (i : Nat) (hi : i < n) : (vscale x a)[i] = a * x[i] := by
+  simp [vscale]
+
+theorem vdot_scale {n : Nat} (r p : RVec n) (a : Rat) : vdot r (vscale p a) = a * vdot r p := by
+  have h := foldl_sum_linear n (fun _ => 0) (fun i => r[i] * p[i]) a
+  rw [foldl_sum_zero n (fun _ => 0) (fun _ => rfl)] at h
+  unfold vdot vscale
+  rw [show (0 : Rat) + a * Fin.foldl n (fun acc i => acc + r[i] * p[i]) 0 =
+    a * Fin.foldl n (fun acc i => acc + r[i] * p[i]) 0 by ring] at h
+  rw [← h]
+  congr 1
+  funext acc i
+  simp only [Fin.getElem_fin, Vector.getElem_ofFn]
+  ring
+
+theorem ratSys_lawfulLin {n : Nat} (A : RMat n) (mask : Vector Bool n) (pre : Option (RMat n × Nat)) :
+    LawfulLin (ratSys A mask pre) := by
+  refine ⟨ratSys_lawful A mask pre, ?_⟩
+  intro p s β
+  show maskF mask (matVec A (vaxpy (vscale p β) s 1)) =
+    vaxpy (vscale (maskF mask (matVec A p)) β) (maskF mask (matVec A s)) 1
+  apply Vector.ext
+  intro i hi
+  rw [getElem_maskF, getElem_matVec, vdot_axpy, vdot_scale, getElem_vaxpy, getElem_vscale, getElem_maskF,
+    getElem_maskF, getElem_matVec, getElem_matVec]
+  split <;> ring
+
 theorem fastSqrt_eq (m : Nat) : fastSqrt m = Nat.sqrt m := by
   simp only [fastSqrt]
   split
@@ -79,5 +107,22 @@ theorem fastSqrt_eq (m : Nat) : fastSqrt m = Nat.sqrt m := by
 theorem qsqrtF_eq (x : Rat) : qsqrtF x = Proto.qsqrt x := by
   unfold qsqrtF Proto.qsqrt
   simp only [fastSqrt_eq]
+
+/-- configuration of `C07.success_without_defect_calc_witness`: fixed iteration count (`min_iter = max_iter = 2`),
+    `tol_rel = 1`, default `skip_defect_calc` -/
+def witnessCfg : Config Rat where
+  tolRel := 1
+  tolAbs := 1000000000
+  tolAbsLow := 0
+  divRel := 1000000000
+  divAbs := 1000000000000
+  stagRate := 19 / 20
+  eps2 := epsSqQ
+  minIter := 2
+  maxIter := 2
+  minStag := 0
+  skipDefCalc := true
+  plotIter := false
+  plotInterval := 1
 
 end FeatModel.Solver
